@@ -16,8 +16,11 @@ def _is_msg(node) -> bool:
 
 
 class MsgAutomaton:
-    def __init__(self, rules: dict, start: str = "start", max_configs: int = 4000):
+    def __init__(self, rules: dict, start: str = "start", max_configs: int = 4000, invisible=None):
         self.rules = rules
+        # occurrences the observer never sees (messages between two external parties are sliced
+        # out of the grammar Fandango works with): treated as epsilon
+        self.invisible = invisible or (lambda node: False)
         self.start = start
         self.max_configs = max_configs
         self._exp_memo: dict = {}
@@ -38,7 +41,10 @@ class MsgAutomaton:
             k = head[0]
             if k == "nt":
                 if _is_msg(head):
-                    out.add(((head[2], head[3] if len(head) > 3 else None, head[1]), rest))
+                    if self.invisible(head):
+                        out |= self._expand(rest, depth + 1)
+                    else:
+                        out.add(((head[2], head[3] if len(head) > 3 else None, head[1]), rest))
                 else:
                     out |= self._expand((self.rules[head[1]],) + rest, depth + 1)
             elif k == "cat":
